@@ -292,3 +292,21 @@ func init() {
 			"if _, ok := v.Interface().(*dag.Agg); ok {\n\t\t\treturn true\n\t\t}\n", "", "C07-X1", "extends the concurrent path"},
 	)
 }
+
+func init() {
+	addMutants(
+		Mutant{"C15", "c15-common-ancestor-never-none", "lake/branch.go", "commonAncestor",
+			"\treturn ksuid.Nil\n}", "\tif len(a) == 0 {\n\t\treturn ksuid.Nil\n\t}\n\treturn a[len(a)-1]\n}", "C15-A1", "share no commit"},
+		Mutant{"C15", "c15-merge-nil-ancestor-not-refused", "lake/branch.go", "Branch.buildMergeObject",
+			"if baseID == ksuid.Nil {", "if baseID == ksuid.Nil && len(parentPath) == 0 {", "C15-A1", "refuses a merge"},
+	)
+}
+
+func init() {
+	addMutants(
+		Mutant{"C14", "c14-compact-skips-missing-source", "lake/branch.go", "Branch.CommitCompact",
+			"if err := patch.DeleteObject(o.ID); err != nil {\n\t\t\t\treturn nil, err\n\t\t\t}", "if err := patch.DeleteObject(o.ID); err != nil {\n\t\t\t\tif errors.Is(err, commits.ErrNotFound) {\n\t\t\t\t\tcontinue\n\t\t\t\t}\n\t\t\t\treturn nil, err\n\t\t\t}", "C14-P3", "CommitCompact"},
+		Mutant{"C12", "c12-compact-skips-missing-source", "lake/branch.go", "Branch.CommitCompact",
+			"if err := patch.DeleteObject(o.ID); err != nil {\n\t\t\t\treturn nil, err\n\t\t\t}", "if err := patch.DeleteObject(o.ID); err != nil {\n\t\t\t\tif errors.Is(err, commits.ErrNotFound) {\n\t\t\t\t\tcontinue\n\t\t\t\t}\n\t\t\t\treturn nil, err\n\t\t\t}", "C12-P6", "CommitCompact"},
+	)
+}
